@@ -127,6 +127,8 @@ def run(R, tier, seed, driver_ok):
                             ('labels-text', np.array(['a', 'b', 'a', 'b', 'a', 'b']))]:
                 R.case(('c06', name, 'calibrate_threshold', tag), True, branch='labels')
                 call(R, name, est.calibrate_threshold, (good, yy), f'{name}.calibrate_threshold/{tag}', f'calibrate_threshold(labels {tag})', {'est': name, 'method': 'calibrate_threshold', 'malformation': tag})
+                R.case(('c06', name, 'score', tag), True, branch='labels')
+                call(R, name, est.score, (good, yy), f'{name}.score/{tag}', f'score(labels {tag})', {'est': name, 'method': 'score', 'malformation': tag})
         # ---- fit
         fa = args
         params = {k: v for k, v in est.get_params().items() if v != 'deprecated' or k not in ('num_constraints', 'convergence_threshold', 'num_chunks', 'k')}
